@@ -23,6 +23,28 @@ func stripIface(v ssa.Value) ssa.Value {
 			v = x.X
 		case *ssa.ChangeType:
 			v = x.X
+		case *ssa.UnOp:
+			// a local that a closure captures lives in a cell: a load of a cell that is stored exactly
+			// once is the value stored (tw := tabwriter.NewWriter(...); cell := func(...) { tw.Write(...) })
+			if x.Op != token.MUL {
+				return v
+			}
+			al, ok := x.X.(*ssa.Alloc)
+			if !ok || al.Referrers() == nil {
+				return v
+			}
+			var stored ssa.Value
+			n := 0
+			for _, ref := range *al.Referrers() {
+				if st, ok := ref.(*ssa.Store); ok && st.Addr == ssa.Value(al) {
+					stored = st.Val
+					n++
+				}
+			}
+			if n != 1 {
+				return v
+			}
+			v = stored
 		default:
 			return v
 		}
